@@ -1,9 +1,132 @@
-(* C09/Props.v — property-level theorems only (statements + `exact`), each followed by Print Assumptions. *)
+(* C09/Props.v — property-level theorems only (statements + `exact`), each followed by Print Assumptions.
+   Every theorem quantifies over ALL operation sequences [ops] (any mix of Create, Write, Read, Stat,
+   SetVersion, PullTract, GCTracts, Check, Restart, AddDisk, RemoveDisk, SetAlloc with arbitrary
+   arguments and arbitrary oracle/remote inputs) from the empty store over either disk kind [m], and
+   then over the arguments of the call being judged in the reached state. *)
 From Coq Require Import List NArith ZArith Bool.
-From BLB Require Import Store.Bytes Store.Model.
+From BLB Require Import Store.Bytes Store.Model Store.Proofs Store.WF Store.Conflict Store.Mono C09.Model C09.Proofs.
 Import ListNotations.
 
-(* [PARTIAL] placeholder while the development is being built: a restart never touches stored files *)
-Theorem restart_keeps_files : forall s, disks (restart s) = disks s.
-Proof. reflexivity. Qed.
-Print Assumptions restart_keeps_files.
+(* [FULL] Read succeeds (NoError or EOF) iff the named version is the served copy's version and then returns exactly the stored bytes of the range, otherwise returns no bytes; Stat succeeds iff the version is current and then returns the stored size, otherwise 0; reads and stats never change the state; Write succeeds iff the version is current and then the served copy is the old content overwritten at the offset with the same version, otherwise the state is unchanged except that the named tract's mod stamp IS bumped, files and disk table untouched *)
+Theorem fence_exact :
+  forall m ops t v,
+    let s := run (init m) ops in
+    (forall len off,
+        ((fst (read s t v len off) = E_OK \/ fst (read s t v len off) = E_EOF) <-> cur_ver s t = Some v) /\
+        (cur_ver s t <> Some v -> snd (read s t v len off) = []) /\
+        (forall f, cur s t = Some f -> f_ver f = Some v ->
+                   snd (read s t v len off) = rle_read (f_data f) off len) /\
+        fst (step s (Read t v len off)) = s) /\
+    ((fst (fst (stat s t v)) = E_OK <-> cur_ver s t = Some v) /\
+     (cur_ver s t <> Some v -> snd (fst (stat s t v)) = 0%N) /\
+     (forall f, cur s t = Some f -> f_ver f = Some v -> snd (fst (stat s t v)) = rle_len (f_data f)) /\
+     fst (step s (Stat t v)) = s) /\
+    (forall d off,
+        (snd (do_write s t v d off) = E_OK <-> cur_ver s t = Some v) /\
+        (forall f, cur s t = Some f -> f_ver f = Some v ->
+                   cur (fst (do_write s t v d off)) t = Some (mkfile (Some v) (rle_write (f_data f) d off))) /\
+        (cur_ver s t <> Some v ->
+         let s' := fst (do_write s t v d off) in
+         s' = bump_stamp s t /\ disks s' = disks s /\ slots s' = slots s /\
+         (forall t', cur s' t' = cur s t') /\
+         (forall t', t' <> t -> lookup s' t' = lookup s t') /\
+         (forall slot st, lookup s t = Some (slot, st) -> lookup s' t = Some (slot, stamp_succ st)))).
+Proof. exact fence_exact_lemma. Qed.
+Print Assumptions fence_exact.
+
+(* [FULL] SetVersion: a version at most 1 is refused with ErrBadVersion before anything is looked at; a conditional call whose stamp is not the tract's current stamp is refused with ErrStampChanged; otherwise with current version c: v at most c is acknowledged and changes nothing (idempotent), v equal to c+1 sets exactly the version and leaves the content, v above c+1 is refused with ErrVersionMismatch; every refusal leaves the whole state unchanged *)
+Theorem setversion_guards :
+  forall m ops t v c,
+    let s := run (init m) ops in
+    let s' := fst (set_version s t v c) in
+    let e := fst (snd (set_version s t v c)) in
+    ((v <= 1)%Z -> s' = s /\ e = E_BadVersion) /\
+    ((1 < v)%Z -> cond_stale s t c = true -> s' = s /\ e = E_StampChanged) /\
+    ((1 < v)%Z -> cond_stale s t c = false ->
+     match cur s t with
+     | None => s' = s /\ is_fail e
+     | Some f =>
+         match f_ver f with
+         | None => s' = s /\ is_fail e
+         | Some cv =>
+             ((v <= cv)%Z -> s' = s /\ e = E_OK) /\
+             (v = (cv + 1)%Z -> e = E_OK /\ cur s' t = Some (mkfile (Some v) (f_data f)) /\
+                                (exists pd, s' = put_file s pd t (mkfile (Some v) (f_data f)))) /\
+             ((cv + 1 < v)%Z -> s' = s /\ e = E_VersionMismatch)
+         end
+     end).
+Proof. exact setversion_guards_lemma. Qed.
+Print Assumptions setversion_guards.
+
+(* [FULL] PullTract at a version below the served copy's version changes nothing whatever the sources answer, and fails with ErrInvalidState when at least one source is named; a PullTract that succeeds with at least one source serves afterwards exactly the bytes one of its sources answered with NoError or EOF, complete from offset 0, at exactly the requested version *)
+Theorem pull_respects_version :
+  forall m ops t srcs v orc,
+    let s := run (init m) ops in
+    (forall f c, cur s t = Some f -> f_ver f = Some c -> (v < c)%Z ->
+                 fst (pull_tract s t srcs v orc) = s /\
+                 (srcs <> [] -> snd (pull_tract s t srcs v orc) = E_InvalidState)) /\
+    (snd (pull_tract s t srcs v orc) = E_OK ->
+     (srcs = [] /\ fst (pull_tract s t srcs v orc) = s) \/
+     exists re data, In (re, data) srcs /\ (re = E_OK \/ re = E_EOF) /\
+                     cur (fst (pull_tract s t srcs v orc)) t = Some (mkfile (Some v) (rle_write [] data 0%N))).
+Proof. exact pull_respects_version_lemma. Qed.
+Print Assumptions pull_respects_version.
+
+(* [FULL] durability: a restart and a RemoveDisk leave every file of every disk as it is; removing an attached disk and attaching it again (when AddDisk succeeds) leaves every file as it is and the server serves every tract with the same version and content as before *)
+Theorem version_durable :
+  forall m ops,
+    let s := run (init m) ops in
+    disks (restart s) = disks s /\
+    (forall pd, disks (fst (remove_disk s pd)) = disks s) /\
+    (forall pd s2, slot_of s pd <> None ->
+                   add_disk (fst (remove_disk s pd)) pd = (s2, E_OK) ->
+                   disks s2 = disks s /\ forall t, cur s2 t = cur s t).
+Proof. exact version_durable_lemma. Qed.
+Print Assumptions version_durable.
+
+(* [FULL] durability across a restart: attaching to a freshly restarted store a disk none of whose tracts is served yet deletes nothing and serves every copy on that disk with its stored version and content, and keeps serving what was served *)
+Theorem attach_serves_stored_copies :
+  forall m ops pd s',
+    let s := run (init m) ops in
+    add_disk s pd = (s', E_OK) ->
+    (forall t, copy s pd t <> None -> lookup s t = None) ->
+    disks s' = disks s /\
+    forall t, cur s' t = match copy s pd t with Some f => Some f | None => cur s t end.
+Proof. exact attach_serves_lemma. Qed.
+Print Assumptions attach_serves_stored_copies.
+
+(* [FULL] when AddDisk finds a second copy of a served tract (versions read as resolveConflicts reads them, an unreadable version counting as 0): the strictly older copy is deleted and the strictly newer one is served unchanged, whichever disk it is on; with equal versions both copies are deleted and the tract is no longer in the table *)
+Theorem conflict_keeps_newer :
+  forall m ops pd s' t pd1 f1 f2,
+    let s := run (init m) ops in
+    add_disk s pd = (s', E_OK) ->
+    open_existing s t = Op_ok pd1 f1 -> copy s pd t = Some f2 ->
+    pd1 <> pd /\
+    match verdict s t pd1 pd with
+    | KeepOld => cur s' t = Some f1 /\ copy s' pd t = None /\ copy s' pd1 t = Some f1
+    | KeepNew => cur s' t = Some f2 /\ copy s' pd1 t = None /\ copy s' pd t = Some f2
+    | DropBoth => lookup s' t = None /\ cur s' t = None /\ copy s' pd1 t = None /\ copy s' pd t = None
+    end.
+Proof. exact conflict_keeps_newer_lemma. Qed.
+Print Assumptions conflict_keeps_newer.
+
+(* [FULL] garbage collection: an instruction (t, v) for a served copy with readable version c removes the copy iff c is at most v and otherwise changes nothing; a copy whose version cannot be read is kept; removal deletes the file and the table entry and touches no other file *)
+Theorem gc_respects_version :
+  forall m ops t v,
+    let s := run (init m) ops in
+    (forall f c, cur s t = Some f -> f_ver f = Some c ->
+                 ((v < c)%Z -> maybe_gc s (t, v) = s) /\
+                 ((c <= v)%Z ->
+                  let s' := maybe_gc s (t, v) in
+                  lookup s' t = None /\ cur s' t = None /\
+                  exists pd, copy s pd t = Some f /\ copy s' pd t = None /\
+                             forall pd' t', (pd', t') <> (pd, t) -> copy s' pd' t' = copy s pd' t')) /\
+    (cur_ver s t = None -> maybe_gc s (t, v) = s) /\
+    (forall f, cur s t = Some f -> cur (fst (remove_tract s t)) t = None).
+Proof. exact gc_respects_version_lemma. Qed.
+Print Assumptions gc_respects_version.
+
+(* [FULL] after every operation sequence the store is well formed: no disk is attached twice, every table entry points at an attached disk that holds the file, and every file on an attached disk is in the table at that disk's slot, so no two attached disks hold the same tract *)
+Theorem reachable_wf : forall m ops, wf (run (init m) ops).
+Proof. exact reachable_wf_lemma. Qed.
+Print Assumptions reachable_wf.
